@@ -427,7 +427,7 @@ def _pwl(prog, res, cls_name, order):
                    'keepdims=True)')
     wrap = [norm_text(p).replace(' ', '').replace('x[1:][', 'heights[')
             for p in parts[2:]]
-    want = ['heights[%d:%d]' % (i, i + 1) for i in range(order - 1)]
+    want = ['heights[%s:%d]' % (i or '', i + 1) for i in range(order - 1)]
     if wrap != want:
       probs.append('wrap-around rows are %s, expected %s' % (wrap, want))
     # the same difference operator is applied to the extended sequence
